@@ -74,6 +74,8 @@ pub fn vf_split_off(v: &mut Vec<u8>, at: usize) -> (r: Vec<u8>)
     requires at <= old(v)@.len()
     ensures final(v)@ == old(v)@.take(at as int), r@ == old(v)@.skip(at as int)
 { unimplemented!() }
+// `use ed25519_dalek::SecretKey as edSecretKey;`
+pub use crate::DalekSecretKey as edSecretKey;
 // ed25519 secret key bytes
 impl DalekSecretKey {
     #[verifier::external_body]
